@@ -103,15 +103,28 @@ def run(model, globals0, maxs=None):
         if k in ('probe', 'cc') or (k in impl.bs.SCRIPT_FUNCTIONS and v is impl.bs.SCRIPT_FUNCTIONS[k]):
             continue
         user[k] = '<function>' if callable(v) else v
-    return (out.kind, repr(out.value) if out.kind == 'ok' else out.message), logs, user
+    return (out.kind, repr(_plain(out.value)) if out.kind == 'ok' else out.message), logs, user
 
 
 def same_run(a, b, ignore=()):
     if a[0] != b[0] or a[1] != b[1]:
         return False
-    ka = {k: v for k, v in a[2].items() if k not in ignore}
-    kb = {k: v for k, v in b[2].items() if k not in ignore}
+    ka = {k: _plain(v) for k, v in a[2].items() if k not in ignore}
+    kb = {k: _plain(v) for k, v in b[2].items() if k not in ignore}
     return repr(sorted(ka.items(), key=lambda kv: kv[0])) == repr(sorted(kb.items(), key=lambda kv: kv[0]))
+
+
+def _plain(v, depth=0):
+    """Final globals for comparison: a function value is just 'a function' (its repr would spell out the - renamed - model)."""
+    if callable(v):
+        return '<function>'
+    if depth > 30:
+        return '<deep>'
+    if isinstance(v, list):
+        return [_plain(x, depth + 1) for x in v]
+    if isinstance(v, dict):
+        return {k: _plain(x, depth + 1) for k, x in v.items()}
+    return v
 
 
 def function_statements(model, name):
